@@ -85,6 +85,17 @@ def run(ctx):
         if bad:
             fails += 1
             ctx.failing_input('stream API: ' + bad, cfg)
+    # readers and waiters that start late, with more than one receive window of data outstanding
+    for k in range(120 if ctx.tier == 'thorough' else 24):
+        if fails >= 3:
+            break
+        for fn in (streams_e2e.exact_case, streams_e2e.late_wait_case):
+            bad, cfg = sshutil.run(fn(ctx.rng), timeout=300)
+            ctx.note_case((cfg['kind'],) + tuple(sorted((a, str(b)) for a, b in cfg.items())), nontrivial=True)
+            ctx.count('e2e.' + cfg['kind'])
+            if bad:
+                fails += 1
+                ctx.failing_input('stream/process API: ' + bad, cfg)
     if ctx.cov['distribution'].get('op.X', 0) < 20:
         ctx.broke('vacuity:hostile', 'too few hostile data packets generated')
     if ctx.cov['distribution'].get('cases_ending_in_protocol_error', 0) < 3:
@@ -100,6 +111,16 @@ def replay(rp):
                                               lambda kind, what, d: fails.append((kind, what))))
         print(fails)
         return 1 if any(k == 'C08' for k, _ in fails) else 0
+    if rp.get('kind') in ('stream_exact', 'late_wait'):
+        import random
+        rng = random.Random(1)
+        fn = streams_e2e.exact_case if rp['kind'] == 'stream_exact' else streams_e2e.late_wait_case
+        for _ in range(60):
+            bad, cfg = sshutil.run(fn(rng), timeout=300)
+            if bad:
+                print('still fails:', bad, cfg)
+                return 1
+        return 0
     if rp.get('kind') == 'stream_lines':
         import random
         rng = random.Random(1)
